@@ -4,6 +4,7 @@ package main
 // assumptions, obligations) and the symbolic State.
 
 import (
+	"os"
 	"fmt"
 	"go/types"
 	"math/big"
@@ -1155,32 +1156,73 @@ func (vc *VC) sameTerm(a, b string) bool {
 	return false
 }
 
+// flattenSum lists the summands of a (nested) sum, looking through abbreviations of sums.
+func (vc *VC) flattenSum(t string, depth int) []string {
+	if d, ok := vc.defTerm[t]; ok && strings.HasPrefix(d, "(+ ") && depth < 6 {
+		t = d
+	}
+	if strings.HasPrefix(t, "(+ ") && depth < 8 {
+		var out []string
+		for _, a := range sexprArgs(t) {
+			out = append(out, vc.flattenSum(a, depth+1)...)
+		}
+		return out
+	}
+	return []string{t}
+}
+
+// matchIndex matches an index template containing the bound variable q exactly once as
+// a summand (q, or a sum A + q in any association and order) against a ground index
+// term, modulo associativity and commutativity of + and the engine's abbreviations:
+// the summands of A are removed from those of the ground term, the rest is q's value.
 func (vc *VC) matchIndex(tmpl, q, ground string) (string, bool) {
 	if tmpl == q {
 		return ground, true
 	}
-	if d, ok := vc.defTerm[ground]; ok && strings.HasPrefix(d, "(+ ") {
-		ground = d
-	}
-	if strings.HasPrefix(tmpl, "(+ ") && strings.HasPrefix(ground, "(+ ") {
-		ta := sexprArgs(tmpl)
-		ga := sexprArgs(ground)
-		if len(ta) == 2 && len(ga) == 2 {
-			if ta[1] == q && vc.sameTerm(ta[0], ga[0]) {
-				return ga[1], true
+	ts := vc.flattenSum(tmpl, 0)
+	nq := 0
+	var rest []string
+	for _, t := range ts {
+		if t == q {
+			nq++
+		} else {
+			if containsTok(t, q) {
+				return "", false
 			}
-			if ta[0] == q && vc.sameTerm(ta[1], ga[1]) {
-				return ga[0], true
-			}
-			// one level deeper: (+ A (+ B q)) against (+ A (+ B T))
-			if vc.sameTerm(ta[0], ga[0]) {
-				if t, ok := vc.matchIndex(ta[1], q, ga[1]); ok {
-					return t, true
-				}
-			}
+			rest = append(rest, t)
 		}
 	}
-	return "", false
+	if nq != 1 {
+		return "", false
+	}
+	gs := vc.flattenSum(ground, 0)
+	used := make([]bool, len(gs))
+	for _, r := range rest {
+		found := false
+		for k, g := range gs {
+			if !used[k] && vc.sameTerm(r, g) {
+				used[k] = true
+				found = true
+				break
+			}
+		}
+		if !found {
+			return "", false
+		}
+	}
+	var left []string
+	for k, g := range gs {
+		if !used[k] {
+			left = append(left, g)
+		}
+	}
+	switch len(left) {
+	case 0:
+		return "0", true
+	case 1:
+		return left[0], true
+	}
+	return "(+ " + strings.Join(left, " ") + ")", true
 }
 
 // names of quantifier-bound variables (never valid in a ground instance)
@@ -1307,7 +1349,7 @@ func (vc *VC) instancesByMatching(goal string, already []string, sks []string, n
 	// E-matching proper: every earlier read of the same row is an instantiation point
 	// (z3 misses these when the index is an arithmetic term it has normalised)
 	for _, tp := range tmpls {
-		if !strings.HasPrefix(tp.arr, "(select ") {
+		if !strings.HasPrefix(tp.arr, "(select ") || os.Getenv("GOVC_NOREADS") != "" {
 			continue
 		}
 		qf := vc.qfacts[tp.qf]
